@@ -38,6 +38,7 @@ type EntryCfg struct {
 	Files    []string          `json:"files"`
 	Redirect map[string]string `json:"redirect"`
 	Generator string           `json:"generator"`
+	Interpret []string         `json:"interpret"` // callee prefixes that are NOT to be treated as observability no-ops in this entry
 }
 
 type PropCfg struct {
@@ -303,6 +304,7 @@ func checkMain(args []string) int {
 			e.solver2Bin = []string{"z3-new", "-in", "-t:120000"}
 		}
 		e.extraNoop = epc.ExtraNoop
+		e.interpret = ec.Interpret
 		e.redirect = epc.Redirect
 		e.solverFresh = pc.SolverMode == "fresh" || pc.SolverMode == "int-fresh"
 		e.solverInt = pc.SolverMode == "int" || pc.SolverMode == "int-fresh"
